@@ -84,7 +84,29 @@ Definition feqb (a b : fl) : bool := match fcmp a b with Some Eq => true | _ => 
 Definition fltb (a b : fl) : bool := match fcmp a b with Some Lt => true | _ => false end.
 Definition fleb (a b : fl) : bool := match fcmp a b with Some Lt | Some Eq => true | _ => false end.
 
+(* division: the quotient is computed to 64+ significant bits plus a sticky bit, which makes the
+   final rounding (to at most 53 bits, ties-to-even) that of the exact quotient.  In [exact] mode the
+   result is that 66-bit truncation, so theorems about quotients are stated on numerator/denominator. *)
+Definition fdiv_with (r : Z -> Z -> fl) (a b : fl) : fl :=
+  match a, b with
+  | FNaN, _ | _, FNaN => FNaN
+  | FInf _, FInf _ => FNaN
+  | FInf s, FFin m _ => FInf (xorb s (Z.ltb m 0))
+  | FFin _ _, FInf _ => FFin 0 0
+  | FFin m1 e1, FFin m2 e2 =>
+      if Z.eqb m2 0 then (if Z.eqb m1 0 then FNaN else FInf (Z.ltb m1 0)) else
+      if Z.eqb m1 0 then FFin 0 0 else
+      let k := Z.max 0 (66 + bitlen m2 - bitlen m1) in
+      let n := Z.shiftl (Z.abs m1) k in
+      let q := n / Z.abs m2 in
+      let rem := n - q * Z.abs m2 in
+      let m := 2 * q + (if Z.eqb rem 0 then 0 else 1) in
+      let neg := xorb (Z.ltb m1 0) (Z.ltb m2 0) in
+      r (if neg then - m else m) (e1 - e2 - k - 1)
+  end.
+
 Definition fadd64 (fp : fpmode) := fadd_with (r64 fp).
+Definition fdiv64 (fp : fpmode) := fdiv_with (r64 fp).
 Definition fmul64 (fp : fpmode) := fmul_with (r64 fp).
 (* `x as f32` for an f64 x *)
 Definition to_f32 (fp : fpmode) (a : fl) : fl :=
